@@ -374,4 +374,217 @@ theorem readN_traceOk (cs need : Nat) (chunks : List Bytes) :
     traceOk cs need 0 (readN cs need chunks).2.2 = true :=
   readLoop_traceOk cs need need [] chunks
 
+/-! ### the model's own observation satisfies the run-time oracle -/
+
+theorem traceOk_req_le {cs need : Nat} : ∀ (tr : List ReadEv) (b : Nat),
+    traceOk cs need b tr = true → ∀ e ∈ tr, e.req ≤ cs := by
+  intro tr
+  induction tr with
+  | nil => intro b _ e he; simp at he
+  | cons a tr ih =>
+    intro b h e he
+    simp only [traceOk, Bool.and_eq_true, decide_eq_true_eq] at h
+    simp only [List.mem_cons] at he
+    rcases he with rfl | he
+    · exact h.1.1.1.1
+    · exact ih _ h.2 e he
+
+theorem maxReq_le {b : Nat} (tr : List ReadEv) (h : ∀ e ∈ tr, e.req ≤ b) : maxReq tr ≤ b := by
+  unfold maxReq
+  have : ∀ (tr : List ReadEv) (acc : Nat), acc ≤ b → (∀ e ∈ tr, e.req ≤ b) →
+      tr.foldl (fun a e => Nat.max a e.req) acc ≤ b := by
+    intro tr
+    induction tr with
+    | nil => intro acc ha _; simpa using ha
+    | cons a tr ih =>
+      intro acc ha h
+      simp only [List.foldl_cons]
+      apply ih
+      · exact Nat.max_le.mpr ⟨ha, h a (by simp)⟩
+      · intro e he; exact h e (by simp [he])
+  exact this tr 0 (Nat.zero_le _) h
+
+theorem readFrame_req_le {Msg : Type} (dec : Bytes → Option Msg) (max : Nat) (chunks : List Bytes) :
+    ∀ e ∈ (readFrame dec max chunks).2.2, e.req ≤ chunkSize := by
+  have hT := readN_traceOk 8 8 chunks
+  have h8 : ∀ e ∈ (readN 8 8 chunks).2.2, e.req ≤ chunkSize := by
+    intro e he
+    have := traceOk_req_le _ _ hT e he
+    have : (8 : Nat) ≤ chunkSize := by decide
+    omega
+  unfold readFrame
+  rcases hh : readN 8 8 chunks with ⟨o, chunks', tr⟩
+  rw [hh] at h8
+  simp only at h8
+  cases o with
+  | none => simpa using h8
+  | some hdr =>
+    simp only
+    cases checkedFrameLength (beVal hdr) max with
+    | error e => simpa using h8
+    | ok len =>
+      simp only
+      have hP := readN_traceOk chunkSize len chunks'
+      rcases hp : readN chunkSize len chunks' with ⟨o2, chunks'', tr2⟩
+      rw [hp] at hP
+      simp only at hP
+      have h2 := traceOk_req_le _ _ hP
+      have hall : ∀ e ∈ tr ++ tr2, e.req ≤ chunkSize := by
+        intro e he
+        rcases List.mem_append.mp he with h | h
+        · exact h8 e h
+        · exact h2 e h
+      cases o2 with
+      | none => simpa using hall
+      | some payload =>
+        simp only
+        cases dec payload <;> simpa using hall
+
+theorem readFramesLoop_req_le {Msg : Type} (dec : Bytes → Option Msg) (max : Nat) :
+    ∀ (fuel : Nat) (chunks : List Bytes), ∀ e ∈ (readFramesLoop dec max fuel chunks).2.2, e.req ≤ chunkSize := by
+  intro fuel
+  induction fuel with
+  | zero => intro chunks e he; simp [readFramesLoop] at he
+  | succ fuel ih =>
+    intro chunks e he
+    have hf := readFrame_req_le dec max chunks
+    unfold readFramesLoop at he
+    rcases hr : readFrame dec max chunks with ⟨r, chunks', tr⟩
+    rw [hr] at he hf
+    simp only at hf
+    cases r with
+    | err e' => simp only at he; exact hf e he
+    | ok m =>
+      simp only at he
+      rcases List.mem_append.mp he with h | h
+      · exact hf e h
+      · exact ih chunks' e h
+
+theorem checked_ok {l max len : Nat} (h : checkedFrameLength l max = .ok len) :
+    l ≤ max ∧ l ≤ isizeMax ∧ len = l := by
+  unfold checkedFrameLength at h
+  split at h
+  · simp at h
+  · split at h
+    · simp at h
+    · simp only [Except.ok.injEq] at h; omega
+
+theorem checked_error {l max : Nat} {e : FrameErr} (h : checkedFrameLength l max = .error e) :
+    (e = .tooLarge ∧ max < l) ∨ (e = .unalloc ∧ isizeMax < l) := by
+  unfold checkedFrameLength at h
+  split at h
+  · rename_i hm
+    simp only [Except.error.injEq] at h
+    exact Or.inl ⟨h.symm, hm⟩
+  · split at h
+    · rename_i hi
+      simp only [Except.error.injEq] at h
+      exact Or.inr ⟨h.symm, hi⟩
+    · simp at h
+
+theorem parseOne_ok_inv {Msg : Type} {dec : Bytes → Option Msg} {max : Nat} {s : Bytes} {m : Msg} {n : Nat}
+    (h : parseOne dec max s = (.ok m, n)) :
+    8 ≤ s.length ∧ beVal (s.take 8) ≤ max ∧ beVal (s.take 8) ≤ isizeMax ∧ n = 8 + beVal (s.take 8) ∧
+    n ≤ s.length := by
+  unfold parseOne at h
+  split at h
+  · simp at h
+  · rename_i h8
+    cases hc : checkedFrameLength (beVal (s.take 8)) max with
+    | error e => rw [hc] at h; simp at h
+    | ok len =>
+      rw [hc] at h
+      obtain ⟨c1, c2, c3⟩ := checked_ok hc
+      simp only at h
+      split at h
+      · simp at h
+      · rename_i hl
+        split at h
+        · simp at h
+        · simp only [Prod.mk.injEq] at h
+          omega
+
+theorem parseOne_err_inv {Msg : Type} {dec : Bytes → Option Msg} {max : Nat} {s : Bytes} {e : FrameErr} {n : Nat}
+    (h : parseOne dec max s = (.err e, n)) (he : e = .tooLarge ∨ e = .unalloc) :
+    8 ≤ s.length ∧ n = 8 ∧ (max < beVal (s.take 8) ∨ isizeMax < beVal (s.take 8)) := by
+  unfold parseOne at h
+  split at h
+  · simp only [Prod.mk.injEq, FrameRes.err.injEq] at h
+    rcases he with rfl | rfl <;> simp at h
+  · rename_i h8
+    cases hc : checkedFrameLength (beVal (s.take 8)) max with
+    | error e' =>
+      rw [hc] at h
+      simp only [Prod.mk.injEq, FrameRes.err.injEq] at h
+      rcases checked_error hc with ⟨_, hm⟩ | ⟨_, hi⟩
+      · exact ⟨by omega, h.2.symm, Or.inl hm⟩
+      · exact ⟨by omega, h.2.symm, Or.inr hi⟩
+    | ok len =>
+      rw [hc] at h
+      simp only at h
+      split at h
+      · simp only [Prod.mk.injEq, FrameRes.err.injEq] at h
+        rcases he with rfl | rfl <;> simp at h
+      · split at h
+        · simp only [Prod.mk.injEq, FrameRes.err.injEq] at h
+          rcases he with rfl | rfl <;> simp at h
+        · simp at h
+
+theorem withinLimit_parseFrames {Msg : Type} (dec : Bytes → Option Msg) (max : Nat) :
+    ∀ (fuel : Nat) (s : Bytes), withinLimit max (parseFrames dec max fuel s).1 s = true := by
+  intro fuel
+  induction fuel with
+  | zero => intro s; simp [parseFrames, withinLimit]
+  | succ fuel ih =>
+    intro s
+    unfold parseFrames
+    rcases hp : parseOne dec max s with ⟨r, n⟩
+    cases r with
+    | err e => simp [withinLimit]
+    | ok m =>
+      obtain ⟨h8, hm, hi, hn, hl⟩ := parseOne_ok_inv hp
+      simp only [withinLimit, Bool.and_eq_true, decide_eq_true_eq]
+      refine ⟨⟨⟨⟨h8, hm⟩, hi⟩, by omega⟩, ?_⟩
+      rw [← hn]
+      exact ih _
+
+theorem lastIsReject_ok_cons {Msg : Type} (m : Msg) (rs : List (FrameRes Msg)) :
+    lastIsReject (.ok m :: rs) = lastIsReject rs := by
+  cases rs with
+  | nil => simp [lastIsReject]
+  | cons r rs => simp [lastIsReject, List.getLast?_cons_cons]
+
+theorem rejectPoint_parseFrames {Msg : Type} (dec : Bytes → Option Msg) (max : Nat) :
+    ∀ (fuel : Nat) (s : Bytes), lastIsReject (parseFrames dec max fuel s).1 = true →
+      rejectPoint max fuel s = some (parseFrames dec max fuel s).2 := by
+  intro fuel
+  induction fuel with
+  | zero => intro s h; simp [parseFrames, lastIsReject] at h
+  | succ fuel ih =>
+    intro s h
+    unfold parseFrames at h ⊢
+    rcases hp : parseOne dec max s with ⟨r, n⟩
+    rw [hp] at h
+    cases r with
+    | err e =>
+      simp only at h ⊢
+      have he : e = .tooLarge ∨ e = .unalloc := by
+        cases e <;> simp [lastIsReject] at h <;> simp
+      obtain ⟨h8, hn, hbig⟩ := parseOne_err_inv hp he
+      unfold rejectPoint
+      rw [if_neg (by omega)]
+      simp only
+      rw [if_pos (by simpa using hbig)]
+      rw [hn]
+    | ok m =>
+      simp only at h ⊢
+      rw [lastIsReject_ok_cons] at h
+      obtain ⟨h8, hm, hi, hn, hl⟩ := parseOne_ok_inv hp
+      have := ih (s.drop n) h
+      unfold rejectPoint
+      rw [if_neg (by omega)]
+      simp only
+      rw [if_neg (by simp; omega), if_neg (by omega), ← hn, this]
+      simp; omega
+
 end Codec
